@@ -50,6 +50,7 @@ type Scenario struct {
 	NewS       string   `json:"news,omitempty"`    // bsdiff: new string
 	OldSpec    string   `json:"oldspec,omitempty"` // bsdiff: old content spec (large inputs)
 	NewSpec    string   `json:"newspec,omitempty"`
+	FailAt     int      `json:"failat,omitempty"` // diff: the source reader fails at its FailAt-th Read call (1-based)
 	BigSig     int      `json:"bigsig,omitempty"` // diff: synthetic old signature of this many blocks (contents A,B,C repeating)
 	Cap        int      `json:"cap,omitempty"` // scheduler variant: capacity replacing the scanner's 256-slot channels
 	Partitions int      `json:"partitions,omitempty"`
@@ -64,14 +65,26 @@ type chooser func(n int, label string) int
 type slicingPool struct {
 	lake.Pool
 	choose chooser
+	failAt int
+	reads  int
 }
 
 type slicingReader struct {
 	r      io.Reader
 	choose chooser
+	failAt int
+	reads  *int
 }
 
+var errInjected = fmt.Errorf("injected read error")
+
 func (s *slicingReader) Read(p []byte) (int, error) {
+	if s.failAt > 0 {
+		*s.reads++
+		if *s.reads >= s.failAt {
+			return 0, errInjected
+		}
+	}
 	if s.choose != nil && len(p) > 1 {
 		switch s.choose(3, "read-size") {
 		case 1:
@@ -90,7 +103,7 @@ func (s *slicingPool) GetReader(i int64) (io.Reader, error) {
 	if err != nil {
 		return nil, err
 	}
-	return &slicingReader{r: r, choose: s.choose}, nil
+	return &slicingReader{r: r, choose: s.choose, failAt: s.failAt, reads: &s.reads}, nil
 }
 
 // prepared is a materialised scenario.
@@ -159,8 +172,12 @@ func (p *prepared) run(choose chooser) (string, error) {
 	switch sc.Kind {
 	case "diff":
 		var pool lake.Pool = fspool.New(p.dr.New, p.newDir)
-		if sc.Slicing {
-			pool = &slicingPool{Pool: pool, choose: choose}
+		if sc.Slicing || sc.FailAt > 0 {
+			sp := &slicingPool{Pool: pool, failAt: sc.FailAt}
+			if sc.Slicing {
+				sp.choose = choose
+			}
+			pool = sp
 		}
 		dctx := &pwr.DiffContext{
 			Compression:     sc.Comp.Settings(),
@@ -172,7 +189,16 @@ func (p *prepared) run(choose chooser) (string, error) {
 		}
 		var patch, sig bytes.Buffer
 		if err := dctx.WritePatch(context.Background(), &patch, &sig); err != nil {
+			if sc.FailAt > 0 {
+				// with a failing source the one thing every schedule must agree on is that
+				// the diff fails (which task reports first, and how much was written before,
+				// legitimately varies)
+				return "failed-as-it-must", nil
+			}
 			return "", err
+		}
+		if sc.FailAt > 0 {
+			return "returned-nil-despite-read-error", nil
 		}
 		return digest(patch.Bytes(), sig.Bytes(), []byte(fmt.Sprintf("%d/%d", dctx.FreshBytes, dctx.ReusedBytes))), nil
 	case "rediff":
@@ -267,6 +293,12 @@ func scenarios(quick bool) []Scenario {
 		)
 	}
 	out = append(out, Scenario{Kind: "diff", Old: blkOld, New: blk, Comp: "none", Slicing: true, Bound: b(1, 2)})
+	// a source reader that fails: whatever the schedule, the diff must not come out as a success
+	out = append(out,
+		Scenario{Kind: "diff", Old: oneOld, New: one, Comp: "none", FailAt: 1, Bound: b(3, -1)},
+		Scenario{Kind: "diff", Old: twoOld, New: two, Comp: "none", FailAt: 2, Bound: b(2, 3)},
+		Scenario{Kind: "diff", Old: blkOld, New: blk, Comp: "none", FailAt: 3, Bound: b(2, 3)},
+	)
 	// a large old signature with heavily duplicated block contents, new file at another path:
 	// which of the equal old blocks a range names must not depend on any schedule
 	out = append(out, Scenario{Kind: "diff", Old: wh.Build{}, New: wh.Build{wh.F("n", "C.A.B.=t")}, Comp: "none", BigSig: 2100, Bound: b(1, 2)})
